@@ -26,7 +26,7 @@ Spec == Init /\ [][Next]_vars
 
 AlwaysWellFormed == WellFormed(d)
 \* validity is exactly "no invalid tag anywhere", and replacing the offending mapping restores it
-ValidIffNoBad == Valid(d) = (\A p \in d.paths : \A i \in 1..Len(p) : p[i] # Bad)
+ValidIffNoBad == (TagBad(Bad) => (Valid(d) = (\A p \in d.paths : \A i \in 1..Len(p) : p[i] # Bad))) /\ (~TagBad(Bad) => Valid(d))
 LastOpVisible == hist # <<>> =>
    LET op == hist[Len(hist)]
        h == IF op[2] = ABSENT THEN <<>> ELSE IF op[3] = ABSENT THEN <<op[2]>> ELSE <<op[2], op[3]>> IN
